@@ -41,10 +41,11 @@ def regenerate():
     log(r.stdout.strip())
     if r.returncode != 0:
         raise BuildError('translator failed (does /repo compile?):\n' + r.stdout[-3000:])
-    r = run([sys.executable, os.path.join(VERIF, 'translator/mkdriver.py'), VERIF])
-    log(r.stdout.strip())
-    if r.returncode != 0:
-        raise BuildError('mkdriver failed:\n' + r.stdout[-3000:])
+    for script in ('translator/mkdriver.py', 'translator/mkextra.py', 'tools/mkprops.py'):
+        r = run([sys.executable, os.path.join(VERIF, script)] + ([VERIF] if script.startswith('translator') else []))
+        if script.endswith('mkdriver.py'): log(r.stdout.strip())
+        if r.returncode != 0:
+            raise BuildError(script + ' failed:\n' + r.stdout[-3000:])
     return json.load(open(os.path.join(WORK, 'gen_index.json')))
 
 def build_harness():
